@@ -272,4 +272,269 @@ theorem Match_np (sch : SchemaEval) (hs : ∀ a b, NP (sch a b)) (d q : Doc) : N
     cases h
     exact (match_np_all sch hs).2.1 d q "" true s he
 
+/-! ### the update operators -/
+
+theorem record_np (s : AState) (path : String) (v : V) : NP (record s path v) := by
+  unfold record; np_leaves
+
+theorem Put_np (d : Doc) (p : Path) (x : V) (pre : Bool) (hp : p ≠ []) : NP (Put d p x pre) := by
+  intro site h
+  cases Put_error_err d p x pre _ hp h
+
+theorem putRec_np (s : AState) (path : String) (v : V) : NP (putRec s path v) := by
+  unfold putRec
+  intro site h
+  split at h
+  · rename_i e he; cases h; exact Put_np _ _ _ _ (splitPath_ne_nil path) _ he
+  · exact record_np _ _ _ _ h
+
+theorem addOrErr_np (r : Option V) : NP (addOrErr r) := by
+  unfold addOrErr; np_leaves
+
+theorem pushSort_cols_np (s : List (String × V)) : NP (pushSort.cols s) := by
+  induction s with
+  | nil => exact NP_ok _
+  | cons kv r ih =>
+    obtain ⟨k, v⟩ := kv
+    unfold pushSort.cols
+    split
+    · rename_i e he; exact NP_of_error (intArg_np v) he
+    · split
+      · exact NP_err
+      · split
+        · rename_i e he; exact NP_of_error ih he
+        · exact NP_ok _
+
+theorem pushSort_np (arr : List V) (spec : V) : NP (pushSort arr spec) := by
+  unfold pushSort
+  simp only
+  split
+  all_goals first | (np_leaves; done) | skip
+  split
+  · rename_i e he; exact NP_of_error (pushSort_cols_np _) he
+  · np_leaves
+
+theorem pullMatches_np (sch : SchemaEval) (hs : ∀ a b, NP (sch a b)) (el cond : V) :
+    NP (pullMatches sch el cond) := by
+  unfold pullMatches
+  split
+  · simp only
+    split
+    · exact Match_np sch hs _ _
+    · split
+      · exact Match_np sch hs _ _
+      · exact NP_ok _
+  · exact NP_ok _
+
+theorem pullFilter_np (sch : SchemaEval) (hs : ∀ a b, NP (sch a b)) (cond : V) (xs : List V) :
+    NP (pullFilter sch cond xs) := by
+  induction xs with
+  | nil => exact NP_ok _
+  | cons item r ih =>
+    unfold pullFilter
+    split
+    · rename_i e he; exact NP_of_error (pullMatches_np sch hs _ _) he
+    · split
+      · rename_i e he; exact NP_of_error ih he
+      · split <;> exact NP_ok _
+
+theorem parsePushMods_np (d : Doc) (m : PushMods) : NP (parsePushMods d m) := by
+  induction d generalizing m with
+  | nil => exact NP_ok _
+  | cons kv r ih =>
+    obtain ⟨k, v⟩ := kv
+    unfold parsePushMods
+    split
+    · split
+      · exact ih _
+      · exact NP_err
+    · split
+      · exact ih _
+      · split
+        · exact ih _
+        · split
+          · exact ih _
+          · exact NP_err
+
+theorem parseAddToSetMods_np (d : Doc) (vals : List V) : NP (parseAddToSetMods d vals) := by
+  induction d generalizing vals with
+  | nil => exact NP_ok _
+  | cons kv r ih =>
+    obtain ⟨k, v⟩ := kv
+    unfold parseAddToSetMods
+    split
+    · exact NP_err
+    · split
+      · exact ih _
+      · exact NP_err
+
+theorem recs_np (path : String) (s : AState) (i : Nat) (vals : List V) :
+    NP (applyOp.recs path s i vals) := by
+  induction vals generalizing s i with
+  | nil => exact NP_ok _
+  | cons val r ih =>
+    unfold applyOp.recs
+    split
+    · rename_i e he; exact NP_of_error (record_np _ _ _) he
+    · exact ih _ _
+
+section
+variable (sch : SchemaEval) (hs : ∀ a b, NP (sch a b))
+
+theorem record_panic (s : AState) (p : String) (v : V) (x : String) :
+    (record s p v = .error (.panic x)) = False := eq_false (record_np s p v x)
+theorem putRec_panic (s : AState) (p : String) (v : V) (x : String) :
+    (putRec s p v = .error (.panic x)) = False := eq_false (putRec_np s p v x)
+theorem Put_panic (d : Doc) (p : String) (v : V) (pre : Bool) (x : String) :
+    (Put d (splitPath p) v pre = .error (.panic x)) = False :=
+  eq_false (Put_np d _ v pre (splitPath_ne_nil p) x)
+theorem addOrErr_panic (r : Option V) (x : String) :
+    (addOrErr r = .error (.panic x)) = False := eq_false (addOrErr_np r x)
+theorem pushIntModifier_panic (v : V) (x : String) :
+    (pushIntModifier v = .error (.panic x)) = False := eq_false (intArg_np v x)
+theorem pushSort_panic (a : List V) (v : V) (x : String) :
+    (pushSort a v = .error (.panic x)) = False := eq_false (pushSort_np a v x)
+theorem parsePushMods_panic (d : Doc) (m : PushMods) (x : String) :
+    (parsePushMods d m = .error (.panic x)) = False := eq_false (parsePushMods_np d m x)
+theorem parseAddToSetMods_panic (d : Doc) (m : List V) (x : String) :
+    (parseAddToSetMods d m = .error (.panic x)) = False := eq_false (parseAddToSetMods_np d m x)
+theorem recs_panic (path : String) (s : AState) (i : Nat) (vals : List V) (x : String) :
+    (applyOp.recs path s i vals = .error (.panic x)) = False := eq_false (recs_np path s i vals x)
+include hs in
+theorem pullFilter_panic (cond : V) (xs : List V) (x : String) :
+    (pullFilter sch cond xs = .error (.panic x)) = False := eq_false (pullFilter_np sch hs cond xs x)
+end
+
+syntax "np_at " ident : tactic
+macro_rules
+  | `(tactic| np_at $h:ident) => `(tactic|
+      repeat' (first
+        | (cases $h:ident; done)
+        | contradiction
+        | split at $h:ident
+        | (simp only [record_panic, putRec_panic, Put_panic, addOrErr_panic, pushIntModifier_panic,
+             pushSort_panic, parsePushMods_panic, parseAddToSetMods_panic, recs_panic] at $h:ident; done)))
+
+theorem applyOp_np (c : ACtx) (hs : ∀ a b, NP (c.sch a b)) (s : AState) (op path : String) (v : V) :
+    NP (applyOp c s op path v) := by
+  intro site h
+  unfold applyOp at h
+  simp only [] at h
+  have hpf := pullFilter_panic c.sch hs
+  split at h
+  all_goals np_at h
+  all_goals (cases h; rename_i heq; np_at heq)
+  all_goals first
+    | (rw [hpf] at heq; exact heq)
+    | (cases heq; rename_i heq2; np_at heq2)
+
+/-! ### resolve and Apply -/
+
+theorem anyFilter_np (sch : SchemaEval) (hs : ∀ a b, NP (sch a b)) (id : String) (item : V) (fs : List Doc) :
+    NP (anyFilter sch id item fs) := by
+  induction fs with
+  | nil => exact NP_ok _
+  | cons f r ih =>
+    unfold anyFilter
+    split
+    · rename_i e he; exact NP_of_error (Match_np sch hs _ _) he
+    · exact NP_ok _
+    · exact ih
+
+theorem loopIdx_np (f : Nat → V → Res (Option (List String))) (hf : ∀ i x, NP (f i x)) (i : Nat) (xs : List V) :
+    NP (loopIdx f i xs) := by
+  induction xs generalizing i with
+  | nil => exact NP_ok _
+  | cons item r ih =>
+    unfold loopIdx
+    split
+    · rename_i e he; exact NP_of_error (hf _ _) he
+    · exact ih _
+    · split
+      · rename_i e he; exact NP_of_error (ih _) he
+      · exact NP_ok _
+
+theorem resolve_np (sch : SchemaEval) (hs : ∀ a b, NP (sch a b)) (fuel : Nat) (path : String) (doc : Doc)
+    (afs : List Doc) : NP (resolve sch fuel path doc afs) := by
+  induction fuel generalizing path with
+  | zero => unfold resolve; exact NP_err
+  | succ n ih =>
+    unfold resolve
+    split
+    · exact NP_ok _
+    · exact NP_err
+    · split
+      · split
+        · exact NP_err
+        · split
+          · exact NP_err
+          · simp only
+            split
+            · apply loopIdx_np
+              intro i x
+              split
+              · rename_i e he; exact NP_of_error (ih _) he
+              · exact NP_ok _
+            · split
+              · exact NP_err
+              · apply loopIdx_np
+                intro i x
+                split
+                · rename_i e he; exact NP_of_error (anyFilter_np sch hs _ _ _) he
+                · exact NP_ok _
+                · split
+                  · rename_i e he; exact NP_of_error (ih _) he
+                  · exact NP_ok _
+      · exact NP_err
+
+theorem Apply_each_np (c : ACtx) (hs : ∀ a b, NP (c.sch a b)) (op : String) (value : V) (s : AState)
+    (ps : List String) : NP (Apply.conds.each c op value s ps) := by
+  induction ps generalizing s with
+  | nil => exact NP_ok _
+  | cons p r ih =>
+    unfold Apply.conds.each
+    split
+    · rename_i e he; exact NP_of_error (applyOp_np c hs _ _ _ _) he
+    · exact ih _
+
+theorem Apply_conds_np (c : ACtx) (hs : ∀ a b, NP (c.sch a b)) (afs : List Doc) (s : AState) (op : String)
+    (upd : List (String × V)) : NP (Apply.conds c afs s op upd) := by
+  induction upd generalizing s with
+  | nil => exact NP_ok _
+  | cons kv r ih =>
+    obtain ⟨key, value⟩ := kv
+    unfold Apply.conds
+    split
+    · rename_i e he; exact NP_of_error (resolve_np c.sch hs _ _ _ _) he
+    · split
+      · rename_i e he; exact NP_of_error (Apply_each_np c hs _ _ _ _) he
+      · exact ih _
+
+theorem Apply_ops_np (c : ACtx) (hs : ∀ a b, NP (c.sch a b)) (afs : List Doc) (s : AState)
+    (upd : List (String × V)) : NP (Apply.ops c afs s upd) := by
+  induction upd generalizing s with
+  | nil => exact NP_ok _
+  | cons kv r ih =>
+    obtain ⟨key, value⟩ := kv
+    unfold Apply.ops
+    split
+    · split
+      · exact NP_err
+      · split
+        · split
+          · rename_i e he; exact NP_of_error (Apply_conds_np c hs _ _ _ _) he
+          · exact ih _
+        · exact NP_err
+    · exact NP_err
+
+/-- `apply_never_panics` -/
+theorem Apply_np (c : ACtx) (hs : ∀ a b, NP (c.sch a b)) (d u : Doc) (afs : List Doc) :
+    NP (Apply c d u afs) := by
+  unfold Apply
+  split
+  · exact NP_err
+  · split
+    · rename_i e he; exact NP_of_error (Apply_ops_np c hs _ _ _) he
+    · exact NP_ok _
+
 end Lungo
